@@ -91,7 +91,6 @@ type Sim struct {
 func NewSim(c *Choices) *Sim {
 	return &Sim{
 		C:          c,
-		wakeCh:     make(chan struct{}, 1),
 		MaxSteps:   20000,
 		Horizon:    time.Hour,
 		ClockSteps: []time.Duration{time.Millisecond, 10 * time.Millisecond, 100 * time.Millisecond, time.Second, 10 * time.Second},
@@ -362,14 +361,20 @@ func (s *Sim) loop() {
 		if s.OnStep != nil {
 			s.OnStep()
 		}
-		if s.finished.Load() || s.Failed() {
+		if s.Failed() {
 			return
 		}
 		if s.Steps >= s.MaxSteps {
-			s.StepLimit = true
+			s.StepLimit = !s.finished.Load()
 			return
 		}
 		ws := s.enabled()
+		if s.finished.Load() && len(ws) == 0 {
+			// epilogue done: whatever is still parked stays parked (never released
+			// unscheduled: a task let loose could block on a mutex whose holder is
+			// parked, which synctest cannot see as blocked)
+			return
+		}
 		if len(ws) == 0 {
 			// nothing runnable: discrete-event jump to the next timer, or hang
 			remain := time.Until(deadline)
@@ -424,26 +429,9 @@ func (s *Sim) describeParked() string {
 	return strings.Join(sb, " ")
 }
 
-// drain releases leftover parked tasks so that the bubble can end.
-func (s *Sim) drain() {
-	s.closed.Store(true)
-	for i := 0; i < 10000; i++ {
-		synctest.Wait()
-		s.mu.Lock()
-		ws := s.parked
-		s.parked = nil
-		s.mu.Unlock()
-		if len(ws) == 0 {
-			return
-		}
-		for _, w := range ws {
-			close(w.ch)
-		}
-	}
-}
-
 // Run executes scenario as the main task inside a fresh bubble under the scheduler.
 func (s *Sim) Run(t *testing.T, scenario func()) {
+	defer s.closed.Store(true)
 	defer func() {
 		if r := recover(); r != nil {
 			msg := fmt.Sprint(r)
@@ -456,6 +444,7 @@ func (s *Sim) Run(t *testing.T, scenario func()) {
 	}()
 	synctest.Test(t, func(t *testing.T) {
 		s.start = time.Now()
+		s.wakeCh = make(chan struct{}, 1) // must belong to the bubble so that waiting on it is durable
 		s.choosePolicy()
 		verifhook.Install(&verifhook.Hooks{
 			Yield: s.hookYield,
@@ -488,6 +477,5 @@ func (s *Sim) Run(t *testing.T, scenario func()) {
 		}()
 		s.loop()
 		s.SimTime = time.Since(s.start)
-		s.drain()
 	})
 }
